@@ -384,6 +384,11 @@ def element_table(ctx):
         info["outs"] = I.explore(run)
     except A.Cannot as e:
         info["cannot"] = str(e)
+    if len(folds) == 1:
+        # `return acc` inside the fold closure ends the step exactly like reaching the closure's tail
+        for o in info["outs"]:
+            if o["exit"] == "return":
+                o["exit"] = "fall"
     return info
 
 
